@@ -4,7 +4,7 @@
 From Coq Require Import List ZArith NArith Bool String.
 From DD Require Import Model.Circuit Model.Writer Model.Lexer Model.LoadC2d
   Proofs.PassLemmas Proofs.Enum Proofs.Semantics Proofs.DetCert Proofs.Renum Proofs.C10Lex
-  Proofs.C10Load.
+  Proofs.C10Load Proofs.C10Total.
 Import ListNotations.
 
 (* (a) Character level: the lexer reads back every line the writer prints, for every node whose
@@ -102,6 +102,28 @@ Theorem C10_reload_renum : forall (C C' : circuit) (n n' : nat),
   idx_ok C = true /\ exists out, Renum (map norm C) C' out.
 Proof. exact load_tokens_renum. Qed.
 Print Assumptions C10_reload_renum.
+
+(* the loader does not panic on the tokens of an indexed non-empty vector: the DFS finishes
+   within its fuel and emits every node after all its children, so every `unwrap` of rebuild
+   succeeds *)
+Theorem C10_reload_defined : forall (C : circuit) (n : nat),
+  idx_ok C = true -> C <> [] -> (N.of_nat n < two32)%N ->
+  exists C', load_c2d (tokens_of C n) = Some (C', n).
+Proof. exact load_tokens_total. Qed.
+Print Assumptions C10_reload_defined.
+
+(* C10 as a whole, for every well-formed model whose numbers are values of the Rust types:
+   saving and loading the written text succeeds and gives a well-formed vector over the same
+   n features with the same function, the same cached count and the same truth table. *)
+Theorem C10_save_reload : forall (C : circuit) (n : nat),
+  WF C n -> file_in_range C n -> (N.of_nat n < two32)%N ->
+  exists C', load_c2d_lines (write_c2d C n) = Some (C', n) /\
+             WF C' n /\
+             (forall s, eval_root s C' = eval_root s C) /\
+             root_count C' = root_count C /\
+             Models C' n = Models C n.
+Proof. exact save_reload. Qed.
+Print Assumptions C10_save_reload.
 
 (* ---------- non-vacuity ---------- *)
 Local Open Scope string_scope.
